@@ -127,6 +127,30 @@ class Family:
                         history=dict(inputs=[dec(x[1]) for x in rs], picks=[x[2] for x in rs], mode=rs[-1][3] if rs else mode, tail=False))
         self.validate(tr, 'seeded random program (mode %s)' % mode, case_of)
 
+    def pairs_model(self, maxreq, programs, stores='mem,fs,pg', limit=4000):
+        """every TLC-generated history of the given model programs served long-lived AND persisted (C07_Equiv on model histories)"""
+        for prog in programs:
+            pj = json.load(open(prog_path(prog)))
+            cfg = 'genp_%s.cfg' % prog
+            open(os.path.join(self.w, cfg), 'w').write(mc_cfg('L', maxreq, 8 + pj['flagcount'], emit=True, cap=pj.get('cachesize', 0)))
+            hp = os.path.join(self.d, 'phist_%s.ndjson' % prog)
+            hists = []
+            with open(hp, 'w') as f:
+                def sink(o):
+                    if len(hists) < limit:
+                        h = to_history(o, tail=False)
+                        hists.append(h)
+                        f.write(json.dumps(h) + '\n')
+                r = core.tlc(self.w, 'ViseMC', cfg, workers=1, timeout=3000, mbt_sink=sink, env={'VERIF_PROG': prog_path(prog)})
+            core.require_tlc_ok(r, 'ViseMC generation %s' % prog)
+            self.out.add_tlc('ViseMC behaviour generation for paired runs %s MaxReq=%d' % (prog, maxreq), r)
+            tr = os.path.join(self.d, 'ptrace_%s.ndjson' % prog)
+            p = core.run_harness(['vise-pairs-hist', prog_path(prog), hp, tr, stores])
+            summ = harness_summary(p)
+            self.out.cov['traces_validated_against_impl'] += summ['pairs'] * 2
+            self.validate(tr, 'model history served long-lived and persisted (%s)' % prog,
+                          lambda ev: dict(program=pj, history=hists[int(ev['sid'].rsplit('.h', 1)[1])], pair=dict(kind='mode', store=ev.get('store'))))
+
     def examples(self, nsess, maxreq, mode='LP'):
         """the repository's example applications, assembled by the real assembler, stub functions for their LOAD symbols"""
         tr = os.path.join(self.d, 'examples.ndjson')
